@@ -412,13 +412,22 @@ def inv_case(args):
                     q2.grad = torch.as_strided(G, sh, st, off).clone() if present(t, i) else None
             optB1.step()
             optB2.step()
+        def diff(x, q):
+            """max |x-q| over finite entries; inf when the non-finite entries (overflow of the storage dtype) are not the same on both sides"""
+            x, q = x.double(), q.double()
+            fx = torch.isfinite(x)
+            if not torch.equal(fx, torch.isfinite(q)) or not torch.equal(torch.nan_to_num(x[~fx], nan=0.0, posinf=1.0, neginf=-1.0),
+                                                                        torch.nan_to_num(q[~fx], nan=0.0, posinf=1.0, neginf=-1.0)):
+                return float("inf")
+            return float((x[fx] - q[fx]).abs().max()) if bool(fx.any()) else 0.0
+
         d1 = d2 = 0.0
         for i in range(len(tensors)):
             for x, q1, q2 in zip(blocksA[i], pB1[i], pB2[i]):
                 if x.shape != q1.shape or x.shape != q2.shape:
                     return {"exc": "shape mismatch"}
-                d1 = max(d1, float((x.double() - q1.double()).abs().max()))
-                d2 = max(d2, float((x.double() - q2.double()).abs().max()))
+                d1 = max(d1, diff(x, q1))
+                d2 = max(d2, diff(x, q2))
         finite = all(bool(torch.isfinite(q).all()) for q in pA)
         moved = [float((q.double() - w.double()).abs().max()) for q, w in zip(pA, W0)]
         return {"d1": d1, "d2": d2, "nblocks": sum(len(ge) for ge in geo), "moved": moved, "finite": finite, "cfg": name}
@@ -563,6 +572,8 @@ def run(ck: Check) -> None:
             # a transposed-storage gradient goes through other kernels than the same-strided block gradients: keep the conditioning benign there
             iwork.append((rng.randrange(ncfg), sh, b, rng.random() < 0.5, 1e-6 if kind == "layout_grad" else rng.choice((1e-12, 1e-8)), 6, rng.randrange(10 ** 6), kind, "float64", "float64"))
             k += 1
+    # a float16 run whose result overflows the storage dtype (found by the thorough tier): both sides must show the same non-finite pattern
+    iwork.append((1, (2, 4, 5), 2, True, 1e-08, 5, 962590, "normal", "float16", "float32"))
     for pdt, qdt in (("float32", "float32"), ("float32", "float64"), ("bfloat16", "float32"), ("float16", "float32")):
         for k in range(naudit):
             sh = tuple(rng.choice((2, 3, 4, 5, 7)) for _ in range(rng.randint(1, 3)))
@@ -870,7 +881,8 @@ def run(ck: Check) -> None:
         if check2:
             exact2 += r["d2"] == 0.0
             max2 = max(max2, r["d2"])
-        if not r["finite"] or not (r["d1"] <= INV_TOL) or (check2 and not (r["d2"] <= INV_TOL)):
+        f64 = len(w) < 10 or w[8] == "float64"      # a float64 run that blows up is a meaningless configuration; a half-precision overflow is an input class (same non-finite pattern required)
+        if (f64 and not r["finite"]) or not (r["d1"] <= INV_TOL) or (check2 and not (r["d2"] <= INV_TOL)):
             inv_bad.append((w, r))
     for w, r in (inv_bad[:1] + inv_exc[:1]):
         ck.report(None, f"[implementation-vs-implementation] blocked run differs from the run on its blocks as separate parameters: config#{w[0]} shape={list(w[1])} "
@@ -977,6 +989,7 @@ def run(ck: Check) -> None:
         "inv_epsilon_1e-12_default": sum(1 for w in iwork if w[4] == 1e-12),
     })
     audit.update(kinds_i)
+    audit["inv_result_overflows_storage_dtype (identical non-finite pattern required)"] = sum(1 for r in ires if r.get("finite") is False)
     ck.coverage["quantifier_audit"] = audit
     ck.coverage["not_exercised"] = {
         "tensors with a dimension of size 0": "the model's theorems assume positive dims and there is no element to tile; torch gives empty tensors strides with max(size,1), so the stride-level model does not apply (probed by hand: the code returns empty blocks without raising)",
